@@ -145,6 +145,8 @@ class GeoInterp:
                 return ('N', Aff.const(e.value))
             if e.value is None:
                 return NONE
+            if isinstance(e.value, str):
+                return ('S', e.value)
             raise AnalysisError(f'geometry expression: constant `{s}`')
         if isinstance(e, ast.Name):
             if e.id == 'NotImplemented':
@@ -199,19 +201,35 @@ class GeoInterp:
         if isinstance(e, ast.Dict):
             return ('D', e, module)      # a dict display used as a value (a nested table)
         if isinstance(e, (ast.Tuple, ast.List, ast.Set)):
-            return ('U', tuple(ev(x) for x in e.elts))
-        if isinstance(e, (ast.ListComp, ast.GeneratorExp)) and len(e.generators) == 1 \
-                and not e.generators[0].is_async:
-            g = e.generators[0]
-            it = self._iterable(ev(g.iter))
-            if it[0] != 'U':
-                raise AnalysisError(f'geometry expression: comprehension over `{src(g.iter)}`')
+            items = []
+            for x in e.elts:
+                if isinstance(x, ast.Starred):
+                    sv = self._iterable(ev(x.value))
+                    if sv[0] != 'U':
+                        raise AnalysisError(f'geometry expression: `*{src(x.value)}`')
+                    items.extend(sv[1])
+                else:
+                    items.append(ev(x))
+            return ('U', tuple(items))
+        if isinstance(e, (ast.ListComp, ast.GeneratorExp)) and \
+                not any(g.is_async for g in e.generators):
             out = []
-            for item in it[1]:
-                env2 = dict(env)
-                self._bind(g.target, item, env2)
-                if all(self._truth(self.eval(c, env2, module, depth)) for c in g.ifs):
+
+            def gens_(i: int, env2: Dict[str, Any]):
+                if i == len(e.generators):
                     out.append(self.eval(e.elt, env2, module, depth))
+                    return
+                g = e.generators[i]
+                it = self._iterable(self.eval(g.iter, env2, module, depth))
+                if it[0] != 'U':
+                    raise AnalysisError(f'geometry expression: comprehension over '
+                                        f'`{src(g.iter)}`')
+                for item in it[1]:
+                    env3 = dict(env2)
+                    self._bind(g.target, item, env3)
+                    if all(self._truth(self.eval(c, env3, module, depth)) for c in g.ifs):
+                        gens_(i + 1, env3)
+            gens_(0, dict(env))
             return ('U', tuple(out))
         if isinstance(e, ast.DictComp):
             pairs: List[Tuple[Any, Any]] = []
@@ -364,6 +382,12 @@ class GeoInterp:
             else:
                 raise AnalysisError(f'geometry guard: membership in `{src(e.comparators[0])}`')
             return r if isinstance(op, ast.In) else not r
+        if isinstance(op, (ast.Lt, ast.LtE, ast.Gt, ast.GtE)) and a[0] == 'N' and b[0] == 'N':
+            # orderings of affine numbers, decided under the area invariants or not at all
+            lo, hi = (a[1], b[1]) if isinstance(op, (ast.Lt, ast.LtE)) else (b[1], a[1])
+            r = self._le(lo, hi) if isinstance(op, (ast.LtE, ast.GtE)) else self._le(lo + 1, hi)
+            if r is not None:
+                return r
         raise AnalysisError(f'geometry guard outside the grammar: `{src(e)}`')
 
     def _call_expr(self, e: ast.Call, env, module, depth):
@@ -435,6 +459,22 @@ class GeoInterp:
                         return ('N', cand)
                 raise AnalysisError(f'geometry expression: order of `{s}` not decided by the '
                                     f'area invariants')
+        if f == 'range' and 1 <= len(e.args) <= 3 and not kw:
+            av = [ev(a) for a in e.args]
+            if all(a[0] == 'N' and a[1].is_const() for a in av):
+                ns = [int(a[1].k) for a in av]
+                if all(a[1].k == n for a, n in zip(av, ns)) and (len(ns) < 3 or ns[2] != 0):
+                    return ('U', tuple(('N', Aff.const(i)) for i in range(*ns)))
+            raise AnalysisError(f'geometry expression: `{src(e)}` is not a range of constants')
+        if f.split('.')[-1] == 'chain' and f.split('.')[0] in ('itt', 'itertools', 'chain') \
+                and not kw and not any(isinstance(a, ast.Starred) for a in e.args):
+            parts = [self._iterable(ev(a)) for a in e.args]
+            if all(p_[0] == 'U' for p_ in parts):
+                return ('U', tuple(x for p_ in parts for x in p_[1]))
+        if f in ('list', 'tuple') and len(e.args) == 1 and not kw:
+            v = self._iterable(ev(e.args[0]))
+            if v[0] == 'U':
+                return v
         if f == 'zip' and len(e.args) == 1 and isinstance(e.args[0], ast.Starred) and not kw:
             rows = self._iterable(ev(e.args[0].value))
             if rows[0] == 'U' and rows[1] and all(r[0] == 'U' for r in rows[1]) and \
@@ -642,7 +682,8 @@ class GeoInterp:
     def walk_of(self, fn: Func) -> GuardWalk:
         w = self._walks.get(id(fn.node))
         if w is None:
-            w = self._walks[id(fn.node)] = walk_function(fn.node)
+            from .normalise import fold_list_building
+            w = self._walks[id(fn.node)] = walk_function(fold_list_building(fn.node))
         return w
 
     def call(self, fn: Func, bound: Dict[str, Any], depth: int = 4):
@@ -703,6 +744,18 @@ class GeoInterp:
                     bound[p] = self.eval(d, {}, fn.module, depth)
                 except AnalysisError:
                     pass            # a default outside the grammar only matters if it is read
+        # a result built in place (x.append(..) in a loop, x += ..) is not what the expansion of
+        # the returned name shows: refuse rather than read the initial value
+        for e in w.events:
+            if e.kind == 'augstore' or (
+                    e.kind == 'call' and isinstance(e.value, ast.Call) and
+                    isinstance(e.value.func, ast.Attribute) and
+                    isinstance(e.value.func.value, ast.Name) and
+                    e.value.func.attr in ('append', 'extend', 'insert', 'add', 'update',
+                                          'reverse', 'sort', 'pop', 'remove', 'clear') and
+                    e.value.func.value.id in w.defs):
+                raise AnalysisError(f'{fn.short}: `{src(e.stmt)[:60]}` builds a value in place '
+                                    f'(outside the grammar of the pose interpreter)')
         if not hasattr(self, '_frames'):
             self._frames = []
         self._frames.append((w, bound, fn.module))
